@@ -24,7 +24,7 @@ RegionRec(i, j) ==
       results |-> IF cls = "struct" THEN {} ELSE Results(body, i, j),
       written |-> IF cls = "struct" THEN {} ELSE Written(body, i, j),
       shapes  |-> IF cls # "ok" THEN {}
-                  ELSE {ShapeOf(body, i, j, v) : v \in (Params(body, i, j) \cup Results(body, i, j)) \cap Vars}]
+                  ELSE {ShapeOf(body, i, j, v) @@ [da |-> v \in DAat(body, init, i)] : v \in Vars}]
 
 ExprRecs ==
   UNION { { [i |-> i, sub |-> s.sub, v |-> s.v, via |-> via, sim |-> sim,
